@@ -238,6 +238,21 @@ pub fn verify_crafted(ctx: &Ctx, rep: &mut Report) {
     }
     go::<F512>(ctx, rep);
     go::<F1024>(ctx, rep);
+    // boundary operands in ONE slot of the transform domain (s2^, h^ in {0, 1, 2, q-1, q-2,
+    // (q+-1)/2} with the matching value of the hashed message's transform): a fused
+    // multiply-subtract inside verify whose offset is one short panics only on such a slot
+    fn slot_boundaries<V: Fv>(ctx: &Ctx, rep: &mut Report) {
+        for (class, msg, sb, pkb, _, _, _, _) in super::c02::ntt_boundary_triples::<V>(ctx.seed, ctx.sz(120, 600)) {
+            if let Ok(pk) = V::pk_from_bytes(&pkb) {
+                verify_one::<V>(&class, &msg, &sb, &pk, &pkb, rep);
+                rep.count("transform_slot_boundary_triples", 1);
+                rep.nontrivial(format!("{}|{}", V::NAME, class).as_bytes());
+            }
+        }
+    }
+    slot_boundaries::<F512>(ctx, rep);
+    slot_boundaries::<F1024>(ctx, rep);
+    rep.require("transform_slot_boundary_triples", 100);
     // structured residuals in the TRANSFORM domain: verify inverse-transforms c^ - s2^ h^; with
     // s2 = 1 and h = c - intt(T) that residual is exactly T, for T running over block patterns
     // (runs of near-maximal entries followed by near-zero ones, periods 2..256, both phases),
